@@ -111,6 +111,37 @@ pub proof fn lemma_enc_batches_one(m: FrameBatch)
         "assert(frames_of(m0).push(frame_of(msg)) + drain(accumulator@, self.parser.max_msg_size).frames =~= frames_of(m0) + (seq![frame_of(msg)] + drain(accumulator@, self.parser.max_msg_size).frames)); acc_prev = accumulator@; }"),
      ]),
   # ---- LengthPrefixedFramer (record layer of CURVE / Noise)
+  Fn(FR, "try_read_msg", impl=LPF, emit_impl="impl LengthPrefixedFramer", rename="LengthPrefixedFramer::try_read_msg",
+     requires=["old(self).parser.state is ReadHeader"],
+     ensures=[
+       # records are cut exactly at their announced length, consumed whole and in order, each handed to the cipher once;
+       # an incomplete record is left untouched in the buffer (so the result does not depend on read boundaries)
+       ("C18+C04:whole_records_consumed_in_order",
+        "exists|n: nat| #[trigger] n_ok(old(network_buffer)@, n) && final(network_buffer)@ == old(network_buffer)@.skip(consumed(old(network_buffer)@, n) as int) "
+        "&& final(self).cipher.dec_inputs() == old(self).cipher.dec_inputs() + bodies(old(network_buffer)@, n)"),
+       ("C18+C04:none_means_no_complete_record_left", "r matches Ok(None) ==> !rec_complete(final(network_buffer)@)"),
+       ("C18:state_frame", "final(self).parser.state is ReadHeader && final(self).parser.max_msg_size == old(self).parser.max_msg_size"),
+     ],
+     extra=[("R8", "network_buffer.as_ref().get_u16()", "verif_peek_u16(network_buffer)", 1),
+            ("R6", "self.cipher.decrypt(&encrypted_frame)", "self.cipher.decrypt(encrypted_frame.as_slice())", 1),
+            ("R6", "self.decrypted_buffer.extend_from_slice(&plaintext)", "self.decrypted_buffer.extend_from_slice(plaintext.as_slice())", 1)],
+     loops={0: {
+       "invariant": [
+         "self.parser.state is ReadHeader", "self.parser.max_msg_size == old(self).parser.max_msg_size",
+         ("C18:loop_records", "n_ok(old(network_buffer)@, vn) && consumed(old(network_buffer)@, vn) <= old(network_buffer)@.len() "
+                              "&& network_buffer@ == old(network_buffer)@.skip(consumed(old(network_buffer)@, vn) as int) "
+                              "&& self.cipher.dec_inputs() == old(self).cipher.dec_inputs() + bodies(old(network_buffer)@, vn)"),
+       ],
+       "decreases": "network_buffer@.len()"}},
+     hints=[("n", "@fn_start", 0, "", "let ghost mut vn: nat = 0; proof { assert(old(network_buffer)@.skip(0) =~= old(network_buffer)@); assert(old(self).cipher.dec_inputs() + Seq::<Seq<u8>>::empty() =~= old(self).cipher.dec_inputs()); }"),
+            ("rec", "re:network_buffer\\.advance\\(2\\);", 0, "before",
+             "proof { lemma_records_snoc(old(network_buffer)@, vn); }\nlet ghost nb0 = network_buffer@; let ghost di0 = self.cipher.dec_inputs(); let ghost bd = bodies(old(network_buffer)@, vn);"),
+            ("dec", "re:let plaintext = self\\.cipher\\.decrypt\\(", 0, "before",
+             "proof { assert(encrypted_frame@ =~= rec_body(nb0)); assert(network_buffer@ =~= nb0.skip(rec_len(nb0) as int)); "
+             "assert(nb0.skip(rec_len(nb0) as int) =~= old(network_buffer)@.skip(consumed(old(network_buffer)@, vn + 1) as int)); "
+             "assert((old(self).cipher.dec_inputs() + bd).push(rec_body(nb0)) =~= old(self).cipher.dec_inputs() + bd.push(rec_body(nb0))); "
+             "assert(di0.push(encrypted_frame@) == old(self).cipher.dec_inputs() + bodies(old(network_buffer)@, vn + 1)); }"),
+            ("inc", "re:self\\.decrypted_buffer\\.extend_from_slice\\(", 0, "before", "proof { vn = vn + 1; }")]),
   lpf_write("write_msg_multipart"),
   lpf_write("write_msg_batch"),
 ]
